@@ -125,6 +125,7 @@ type Conn struct {
 	Visibility map[imap.MailboxID]imap.MailboxVisibility
 
 	closed     bool
+	quit       chan struct{} // closed by Close: the update channel itself is never closed (an Inject may be sending)
 	noLiterals bool
 }
 
@@ -133,6 +134,7 @@ func New(usernames []string, password string) *Conn {
 		Usernames:  usernames,
 		Password:   []byte(password),
 		updateCh:   make(chan imap.Update, 1024),
+		quit:       make(chan struct{}),
 		Mailboxes:  map[imap.MailboxID]*RMailbox{},
 		Messages:   map[imap.MessageID]*RMessage{},
 		Faults:     map[string][]string{},
@@ -147,6 +149,7 @@ func (c *Conn) Reopen() {
 	c.mu.Lock()
 	defer c.mu.Unlock()
 	c.updateCh = make(chan imap.Update, 1024)
+	c.quit = make(chan struct{})
 	c.closed = false
 }
 
@@ -408,7 +411,7 @@ func (c *Conn) Close(ctx context.Context) error {
 	defer c.mu.Unlock()
 	if !c.closed {
 		c.closed = true
-		close(c.updateCh)
+		close(c.quit)
 	}
 	return nil
 }
@@ -568,15 +571,34 @@ type InjectResult struct {
 func (c *Conn) Inject(u imap.Update, timeout time.Duration) InjectResult {
 	c.mu.Lock()
 	ch := c.updateCh
+	quit := c.quit
 	closed := c.closed
 	c.mu.Unlock()
 	if closed {
 		return InjectResult{Err: "connector closed"}
 	}
-	ch <- u
 	ctx, cancel := context.WithTimeout(context.Background(), timeout)
 	defer cancel()
-	err, ok := u.WaitContext(ctx)
+	select {
+	case ch <- u:
+	case <-quit:
+		return InjectResult{Err: "connector closed"}
+	case <-ctx.Done():
+		return InjectResult{TimedOut: true}
+	}
+	// the server stops reading updates when the user is removed / the server closed: an update that is still in the
+	// channel then is never acknowledged, which is not the server's fault
+	done := make(chan struct{})
+	var err error
+	var ok bool
+	go func() { err, ok = u.WaitContext(ctx); close(done) }()
+	select {
+	case <-done:
+	case <-quit:
+		cancel()
+		<-done
+		return InjectResult{Err: "connector closed"}
+	}
 	if ctx.Err() != nil {
 		return InjectResult{TimedOut: true}
 	}
